@@ -368,6 +368,8 @@ package align
 //@   ensures (err == nil) == (validcode(geneticcode) && 0 <= phase && allnt(s, len(s.sequence)) && len(s.sequence) - phase >= 3)
 //@   ensures err == nil ==> tr != nil && fresh(tr) && tr.name == s.name && tr.comment == s.comment && len(tr.sequence) == (len(s.sequence) - phase) / 3
 //@   ensures err == nil ==> forall k :: 0 <= k && k < len(tr.sequence) ==> tcrel(codeof(geneticcode), tr.sequence[k], s.sequence[phase+3*k], s.sequence[phase+3*k+1], s.sequence[phase+3*k+2])
+// (added for C16) the residues of the translation live in memory of their own
+//@   ensures err == nil ==> allocated(tr) && fresh(tr.sequence) && allocated(tr.sequence)
 //@   modifies nothing
 
 // ---- bag / alignment level ----
